@@ -267,6 +267,14 @@ def h_super_relations():
         r = W.relation("Low", src=src)
         direct = [W.field("Mid", f"d{i}") for i in range(nd)]
         rtf = [W.field("Top", f"r{i}") for i in range(nr)]
+        # whatever the role taker's own fields hold at that moment (single-valued fields already holding ANOTHER value included):
+        # the graph receives every consequence; which value a single-valued field shows afterwards is the write-back's matter
+        occupied = ctx.choice(2, "role-taker-fields-already-hold-other-values?") == 1
+        ctx.inputs["occupied"] = occupied
+        for i, f_ in enumerate(rtf):
+            f_.fields.setdefault("is_iterable", False)
+            f_.fields.setdefault("is_container", False)
+            rt_inst.fields[f_.fields["public_name"]] = W.instance(f"previous-value-{i}") if occupied else None
         asked = []
 
         def fields_of(it, a, k):
@@ -328,6 +336,12 @@ def h_fields_of_superproperties():
         assocs[:] = W2
         got = vm.call_func(f, [W.D["Trans"], dom], {})
         ctx.check("PropertyDescriptor.get_associated_field_of_domain_type::none-when-the-type-has-no-such-field", z3.BoolVal(got is None), detail=repr(got))
+        # ... also when the type has fields of SUB- and SUPER-properties of it only (Low < Mid < Top, no Mid field): a fact of a
+        # sub-property is not derivable from a fact of the property
+        assocs[:] = [x for x in assocs if x.fields["field"].fields["property_descriptor"].cls is not W.D["Mid"]]
+        f = W.D["Mid"].find("get_associated_field_of_domain_type", vm.loader)[2]
+        got = vm.call_func(f, [W.D["Mid"], dom], {})
+        ctx.check("PropertyDescriptor.get_associated_field_of_domain_type::a-field-of-a-sub-or-super-property-does-not-stand-in", z3.BoolVal(got is None), detail=repr(got))
     return Harness("fields-of-superproperties", run, spec=Spec())
 
 
